@@ -1,5 +1,83 @@
 package main
 
-// chainReplayC17 is filled in once the chain generator exists: chain histories
-// replayed over every backend with bucket dumps compared.
-func chainReplayC17(c *Ctx) {}
+import (
+	"bytes"
+	"fmt"
+	"sort"
+
+	"go.sia.tech/coreutils/chain"
+	"verif/harness/internal/chaingen"
+	"verif/harness/internal/mgrsim"
+	"verif/harness/internal/rng"
+)
+
+var c17ChainBuckets = []string{"Version", "Network", "MainChain", "States", "Blocks", "FileContractElements", "SiacoinElements", "SiafundElements", "Tree"}
+
+// dumpDB renders every bucket of the chain store through the chain.DB interface, sorted.
+func dumpDB(db chain.DB) string {
+	var sb bytes.Buffer
+	for _, name := range c17ChainBuckets {
+		b := db.Bucket([]byte(name))
+		if b == nil {
+			fmt.Fprintf(&sb, "%s: <missing>\n", name)
+			continue
+		}
+		var kvs []string
+		for k, v := range b.Iter() {
+			kvs = append(kvs, fmt.Sprintf("%x=%x", k, v))
+		}
+		sort.Strings(kvs)
+		fmt.Fprintf(&sb, "%s: %d entries\n", name, len(kvs))
+		for _, kv := range kvs {
+			sb.WriteString(kv)
+			sb.WriteByte('\n')
+		}
+	}
+	return sb.String()
+}
+
+// chainReplayC17 replays chain histories (fork trees, reorgs, prunes) over every
+// backend: "consequently the chain store behaves the same whichever backend it is given".
+// Observations after every call and the complete bucket dumps must be identical.
+func chainReplayC17(c *Ctx) {
+	res := c.Res
+	bes := c17Backends(res.Dir())
+	n := c.Scale(12, 200)
+	for i := 0; i < n; i++ {
+		r := c.R.Fork()
+		cs := mgrsim.Case{Seed: r.U64(), Regime: i % 6, Opts: chaingen.GenOpts{Blocks: 6 + r.Intn(14), Branchiness: 2 + r.Intn(4), TxPerBlock: 1 + r.Intn(3), Corruptions: r.Intn(3)}}
+		t := cs.Tree()
+		plan := mgrsim.GenPlan(rng.New(cs.Seed^0x2545f491), t, i%2 == 0)
+		var ref []mgrsim.Obs
+		var refDump, refName string
+		for _, be := range bes {
+			db, done := be.open()
+			s := mgrsim.NewSim(t, db)
+			var obs []mgrsim.Obs
+			for _, op := range plan {
+				obs = append(obs, s.Do(op))
+			}
+			s.Store.Flush()
+			dump := dumpDB(db)
+			done()
+			res.Count("chain-replay:" + be.name)
+			if ref == nil {
+				ref, refDump, refName = obs, dump, be.name
+				continue
+			}
+			for j := range obs {
+				a, b := ref[j], obs[j]
+				if a.Err != b.Err || a.Panic != b.Panic || fmt.Sprint(a.Best) != fmt.Sprint(b.Best) || fmt.Sprint(a.Known) != fmt.Sprint(b.Known) || !bytes.Equal(a.TipState, b.TipState) {
+					res.Fail("kv-chain-store-differs-between-backends", fmt.Sprintf("chain history over %s and %s: after call %d (%v) the manager's observable state differs", refName, be.name, j, plan[j]),
+						map[string]any{"case": cs, "plan": plan, "backend_a": refName, "backend_b": be.name, "call": j})
+					break
+				}
+			}
+			if dump != refDump {
+				res.Fail("kv-chain-store-dump-differs-between-backends", fmt.Sprintf("chain history over %s and %s: the stored buckets differ after the same %d calls", refName, be.name, len(plan)),
+					map[string]any{"case": cs, "plan": plan, "backend_a": refName, "backend_b": be.name})
+			}
+		}
+		res.Eval(fmt.Sprintf("chain-replay %d %d", cs.Seed, cs.Regime), true)
+	}
+}
